@@ -39,6 +39,7 @@ SEARCHES = {
     "PySwarmsGlobal": af.PySwarmsGlobal, "PySwarmsLocal": af.PySwarmsLocal,
     "BFGS": af.BFGS, "LBFGS": af.LBFGS, "Drawer": af.Drawer,
     "Zeus": af.Zeus, "Nautilus": af.Nautilus, "UltraNest": af.UltraNest,
+    "MockSearch": af.m.MockSearch,
 }
 BINOPS = {"+": "SumPrior", "*": "MultiplePrior", "/": "DivisionPrior", "//": "FloorDivPrior",
           "%": "ModPrior", "**": "PowerPrior"}
@@ -436,6 +437,58 @@ def run_fit(spec, want_abs):
     return out
 
 
+def run_history(c):
+    """ONE search object really fitted (search.fit) several times in a row; before each fit the user sets
+    search.unique_tag.  The paths object may be handed over with a tag of its own.  After each fit: what the paths
+    describe, the output folder, and what a brand-new search with the same settings, model and tag gets."""
+    from autofit.non_linear.paths.directory import DirectoryPaths
+    COUNTER[0] += 1
+    sspec = dict(c["search"])
+    sspec["name"] = "hist_%d" % COUNTER[0]
+    init = c.get("init", {})
+    if "paths_tag" in init:          # a paths object that already carries a tag is handed to the search
+        sspec["paths"] = DirectoryPaths(name=sspec["name"], unique_tag=init["paths_tag"])
+        name = sspec.pop("name")
+        sspec["unique_tag"] = init.get("ctor_tag")
+        cls = SEARCHES[sspec["cls"]]
+        kw = dict(sspec.get("settings", {}))
+        kw.update(sspec.get("run", {}))
+        search = cls(paths=sspec["paths"], unique_tag=sspec["unique_tag"], **kw)
+        sspec["name"] = name
+    else:
+        sspec["unique_tag"] = init.get("ctor_tag")
+        search = make_search(sspec, {})
+    search.paths.remove_files = False
+    steps = []
+    for k, st in enumerate(c["steps"]):
+        pool = make_pool(st["pool"], list(range(len(st["pool"]))), 0)
+        model = build(st["model"], pool, {})
+        tag = st.get("tag")
+        search.unique_tag = tag
+        out = {}
+        try:
+            search.fit(model=model, analysis=Analysis())
+        except BaseException as e:  # noqa
+            out["fit_error"] = exc_name(e)
+        try:
+            ident = search.paths._identifier
+            out["paths_identifier"] = search.paths.identifier
+            out["hash_list"] = list(getattr(ident, "hash_list", []))
+            op = Path(search.paths.output_path)
+            out["folder"] = op.name
+            out["path_parts"] = list(op.parts[-3:])
+            out["paths_tag"] = search.paths.unique_tag
+        except BaseException as e:  # noqa
+            out["raised"] = exc_name(e)
+        fresh = make_search(dict(sspec, name=sspec["name"] + "_fresh%d" % k, unique_tag=tag), {})
+        fresh.paths.model = build(st["model"], make_pool(st["pool"], list(range(len(st["pool"]))), 0), {})
+        fresh.paths.unique_tag = tag
+        out["fresh"] = fresh.paths.identifier
+        out["fresh_walk"] = walk_observables([fresh, fresh.paths.model] + ([tag] if tag is not None else [])).get("identifier")
+        steps.append(out)
+    return {"steps": steps}
+
+
 # ---------------------------------------------------------------------------------------
 # generic values for the walk
 # ---------------------------------------------------------------------------------------
@@ -500,6 +553,8 @@ def run_case(c):
         return out
     if k == "round":
         return walk_observables(unhex(c["v"]))
+    if k == "history":
+        return run_history(c)
     if k == "readback":      # files written by ANOTHER process are read here
         d = Path(os.environ["VERIF_SCRATCH"]) / ("readback_%d" % COUNTER[0])
         COUNTER[0] += 1
